@@ -18,7 +18,7 @@
    (3) serialization changes nothing except aligning each initializer tensor's own name with the name of its
        value: C03_ser_readonly (FULL). *)
 From Coq Require Import NArith List Bool Arith.
-From IRV Require Import Base.Exn C03.Model C03.Canon C03.Inv C03.Iso C03.Readonly C03.Twice C03.Tree C03.TreeF C03.PayFixDefs C03.IsoThm C03.IsoThmF C17.Top.
+From IRV Require Import Base.Exn C03.Model C03.Canon C03.Inv C03.Iso C03.Readonly C03.Twice C03.Tree C03.TreeF C03.PayFixDefs C03.IsoThm C03.IsoThmF C17.Top C03.ModelOld C17.OldFormat.
 Import ListNotations.
 Open Scope N_scope.
 
@@ -82,6 +82,13 @@ Theorem C03_ser_deser_ser :
       ser_model np h m = Ok (h1, q) /\ deser_model q = Ok (h2, m2) /\ ser_model np h2 m2 = Ok (h3, q).
 Proof. exact ser_deser_ser. Qed.
 Print Assumptions C03_ser_deser_ser.
+
+(* The serializer of the IR < 10 format (function value info written into the main graph, C03/ModelOld.v) is
+   read-only up to initializer tensor names as well. *)
+Theorem C03_ser_readonly_old :
+  forall np Y h m h' q, ser_model_old np Y h m = Ok (h', q) -> readonly h h'.
+Proof. exact ser_model_old_readonly. Qed.
+Print Assumptions C03_ser_readonly_old.
 
 (* Whatever the state serialized, if the proto deserializes, the result satisfies the invariant. *)
 Theorem C03_roundtrip_consistent_partial :
